@@ -51,15 +51,14 @@ class FileSystemLoader(BaseLoader):
         """
         template_path = Path(template_name)
 
-        # An absolute name would replace the search path when joined to it.
-        if template_path.is_absolute():
+        # An absolute name would replace the search path when joined to it, and a
+        # parent directory segment leave it. (Checked before a default extension
+        # turns a trailing ".." into the file name "...ext".)
+        if template_path.is_absolute() or os.path.pardir in template_path.parts:
             raise TemplateNotFoundError(template_name)
 
         if self.ext and not template_path.suffix:
             template_path = template_path.with_suffix(self.ext)
-
-        if os.path.pardir in template_path.parts:
-            raise TemplateNotFoundError(template_name)
 
         for path in self.search_path:
             source_path = path.joinpath(template_path)
